@@ -32,9 +32,10 @@ func init() {
 			"a burst of 20-40 hostile router messages (every message type incl. client-to-router ones, templates with fields/details/arguments replaced by hostile values, payload-passthru details of every type, " +
 			"ids of pending requests / live invocations / unknown, duplicate and triplicate invocations, progressive chunks, replies scheduled at 0, 1 ms, T/2, T-1ms, T, T+1ms, 2T (the calls' context deadline), 2T+1ms, 3T), " +
 			"then a liveness probe (a new Subscribe answered properly must succeed, a valid INVOCATION must be answered); ending by router GOODBYE / ABORT / transport drop (also mid-burst) / Close answered / Close unanswered / Close with calls pending; " +
+			"every 6th case: the router misbehaves during the join (nothing, ABORT, GOODBYE, garbage, WELCOME without/with hostile roles and details, CHALLENGE for offered/unknown methods, then a second answer, delays around the response timeout): NewClient returns within its timeouts, closes the peer on failure, leaves no goroutine (CH6, CH7); " +
 			"oracles: no panic, receive loop not blocked at quiescence, probe served, every API call returned within 4T of virtual time after the burst, Done() closed after GOODBYE/ABORT/EOF, Close returns, " +
 			"handler entries == exits and no client goroutine an hour later; non-trivial = >=10 distinct (message type, corrupted position/value kind) tuples delivered and >=1 pending call hit by a hostile reply",
-		Required: []string{"CH2", "CH3", "CH4", "CH5", "CL12", "CL13"},
+		Required: []string{"CH2", "CH3", "CH4", "CH5", "CH6", "CH7", "CL12", "CL13"},
 		Level:    "exploration",
 	})
 }
@@ -48,6 +49,10 @@ type c17Call struct {
 }
 
 func runC17(c *Case) {
+	if c.Index%6 == 5 {
+		runC17Join(c)
+		return
+	}
 	r := c.Rng
 	tmo := pick(r, []time.Duration{100 * time.Millisecond, time.Second})
 	queue := pick(r, []int{0, 0, 1, 4})
